@@ -23,6 +23,10 @@ Parts
   quote         quote_{userinfo,path,query,fragment}_part(s, full_quote=True): legal characters only, undone by
                 unquote; unquote against a 6-line reference decoder on character strings and escape-token strings,
                 on '%' + every pair of ASCII characters and on every upper/lower-case spelling of multi-byte runs
+  pseudo-escapes  '%' + every ASCII character + runs of 1..6 (thorough: 8) hex digits (%u0041, %U0041, %x41, %#41 ...:
+                not %XX escapes), introducers of foreign escape notations (backslash, &#x..;, =XX, U+, 0x, braces),
+                the same behind a doubled '%' and with '%' written %25 / %2525: left alone by unquote, quote undone
+                by unquote (part pseudo-escapes-quote), and recovered as component texts (part pseudo-escapes)
   grammar       URL texts and relative references assembled from menus per RFC 3986 production: full-quote and
                 minimal-quote render-after-parse fixed points, legal characters
   totality      every sequence of <= 4 (quick) / <= 5 (thorough) tokens, and every character in 20 structural
@@ -818,6 +822,46 @@ def shard_unquote_hex(arg, t, g):
         _record(t, case, g.call(case, eval_unquote, U, s))
 
 
+# '%' followed by something that is NOT two hex digits is not an escape ("leaves everything else alone"): '%' + every
+# ASCII character + a run of 1..6 (thorough: ..8) hex digits, which is the shape of the escape notations of other
+# languages ('%u0041' of JavaScript escape(), '%x41', ...); the introducers of further foreign notations (backslash
+# escapes, HTML character references, quoted-printable, U+, 0x, braces); the same behind a doubled percent sign and after
+# one and two levels of quoting ('%25u0041', '%2525u0041').  None of them may be decoded by unquote, and as a
+# component text each of them must come back as it was placed.
+HEX_RUN_SOURCES = ('00000041', '000020ac', '0001F600', 'ffffffff', '00000025')
+FOREIGN_INTRODUCERS = ['\\u', '\\U', '\\x', '\\', '\\u{', '&#', '&#x', '&#X', '&', '=', '=?', 'U+', 'u+', '0x', '$', '^',
+                       '~', '+', '%u{', '%{', '%x{', '%&#x', '%&#', '%\\u', '%\\x', '%0x', '%U+', '%=', '%+u', '%u+']
+
+
+def hex_runs(n, sources=HEX_RUN_SOURCES):
+    return list(dict.fromkeys(src[-n:] for src in sources))
+
+
+def pseudo_escape_texts(tier, cells=False):
+    """cells=False: the texts for unquote / quote_*_part; cells=True: the (smaller) list placed in URL components."""
+    maxrun = 6 if tier == 'quick' else 8
+    letters = [c for c in ASCII if c.isalnum()]
+    intros = ['%' + c for c in letters + [c for c in ASCII if not c.isalnum()]] + FOREIGN_INTRODUCERS
+    out = []
+    for n in range(1, maxrun + 1):
+        runs = hex_runs(n) if not cells else hex_runs(n, HEX_RUN_SOURCES[:2] if n in (2, 4) else HEX_RUN_SOURCES[:1])
+        for intro in intros:
+            for run in runs:
+                terms = ('', ';') + (('}',) if intro.endswith('{') else ())
+                for term in (terms if not cells or n in (2, 4) else terms[-1:] if intro.endswith('{') else terms[:1]):
+                    s = intro + run + term
+                    out.append(s)
+                    if cells and n != 4:
+                        continue
+                    out.append('%' + s)                                   # doubled percent sign
+                    out.append(s.replace('%', '%25'))                     # after one level of quoting
+                    if not cells:
+                        out.append(s.replace('%', '%2525'))               # after two levels
+                        out.append('a' + s + 'b' + s)                     # inside text, twice
+                        out.append('%41' + s + '%C3%A9')                  # next to well-formed escapes
+    return sorted(dict.fromkeys(out), key=len)             # simplest first (stable)
+
+
 def shard_grammar(arg, t, g):
     U = _u()
     for text in g_texts(arg['scheme'], arg['authorities'], arg['tails'], arg['queries'], arg['fragments']):
@@ -1065,6 +1109,20 @@ def run(ctx):
     args = [{'firsts': chunk, 'runs': MULTIBYTE_ESCAPES[i::8]} for i, chunk in enumerate(_chunks(ASCII, 8))]
     inputs.run_shards(ctx, _guarded(shard_unquote_hex), args, part='unquote-hex', rule=rule)
 
+    # pseudo escapes: '%' + a character + hex digits, foreign escape notations; unquote / quote and as component texts
+    ptexts = [s for s in pseudo_escape_texts(ctx.tier) if s not in seen]
+    args = [{'texts': chunk} for chunk in _chunks(ptexts, 16)]
+    inputs.run_shards(ctx, _guarded(shard_quote), args, part='pseudo-escapes-quote', rule=rule)
+    ctexts = pseudo_escape_texts(ctx.tier, cells=True)
+    args = []
+    for comp in COMPONENTS:
+        for chunk in _chunks(ctexts, 3):
+            args.append({'part': 'pseudo-escapes', 'component': comp, 'texts': chunk, 'bases': list(SHAPE_BASES[:1]),
+                         'frames': ('full',), 'hows': ('assign',)})
+            args.append({'part': 'pseudo-escapes', 'component': comp, 'texts': chunk, 'bases': list(SHAPE_BASES[1:2]),
+                         'frames': ('sparse',), 'hows': ('from_parts',)})
+    inputs.run_shards(ctx, _guarded(shard_cells), args, part='pseudo-escapes', rule=rule)
+
     # 3. grammar product
     inputs.run_shards(ctx, _guarded(shard_grammar), grammar_shards(ctx.tier), part='grammar', rule=rule)
 
@@ -1108,6 +1166,13 @@ def run(ctx):
                 'frames': ['repeat (a query key occurs twice)', 'rootless / rootless_sparse (rootless path next to an '
                            'authority)'],
                 'texts': 'strings of length <= 2 over alphabet24 + matrix texts in the components concerned, %r elsewhere' % (few,)},
+        pseudo_escapes={'introducers': "'%' + every ASCII character; " + ' '.join(FOREIGN_INTRODUCERS),
+                        'hex_runs': 'the last n digits of %s, n = 1..%d' % (', '.join(HEX_RUN_SOURCES), 6 if ctx.quick() else 8),
+                        'terminators': "none, ';', '}' behind a brace (as component texts: for n = 2 and 4)",
+                        'variants': "behind a doubled '%', with every '%' written as %25 / %2525, twice inside text, "
+                                    "next to well-formed escapes",
+                        'as_component_texts': '%d of them (one or two runs per length; variants for n = 4)' % len(ctexts),
+                        'texts': len(ptexts)},
         unquote_hex={'pairs': "'%' + every pair of ASCII characters, alone and twice inside text",
                      'multibyte_runs_in_every_case_spelling': MULTIBYTE_ESCAPES},
         totality_templates=TOTALITY_TEMPLATES, find_all_links_variants=[n for n, _ in FAL_VARIANTS],
@@ -1172,7 +1237,7 @@ def replay(ctx, data):
 def _replay(ctx, data, case):
     U = _u()
     part = case.get('part')
-    if part in ('matrix', 'strings', 'shapes'):
+    if part in ('matrix', 'strings', 'shapes', 'pseudo-escapes'):
         res = eval_cell(U, case['base'], case['component'], case['text'], case['frame'], case.get('build', 'assign'))
     elif part == 'quote':
         res = eval_quote(U, case['fn'], case['text'])
